@@ -452,6 +452,21 @@ def analyse(case, io):
                 if r in done:
                     add("C02:root-outcome", "value()-differs-from-task-outcome",
                         "value() of computation #%d gave %s, the root task completed with %s" % (len(roots) - 1, outs[len(roots) - 1], done.get(r)))
+                else:
+                    o = outs[len(roots) - 1]
+                    eidv = o["Some"][0]["Err"][0] if isinstance(o, dict) and "Some" in o and "Err" in o["Some"][0] else None
+                    if isinstance(eidv, int) and eidv >= 0:
+                        # a scripted fault came out of value() although the awaited task never completed: it went past the
+                        # tasks that should have received it at their yield (the stack guard's RuntimeError is not scripted)
+                        add("C02:root-outcome", "fault-escaped-past-the-awaiting-tasks",
+                            "value() of computation #%d raised scripted fault %s but the root task never completed" % (len(roots) - 1, eidv))
+            o = outs[len(roots) - 1] if roots else None
+            if isinstance(o, dict) and "Some" in o and o["Some"][0].get("Err") in ([-5], [-3]):
+                cls = "BatchingError" if o["Some"][0]["Err"] == [-5] else "FutureIsAlreadyComputed"
+                add("C01:received-value", "asynq-internal-error-as-outcome:%s" % cls,
+                    "computation #%d ended with asynq's own %s, which no program step raises" % (len(roots) - 1, cls))
+                add("C05:flush-at-most-once", "asynq-internal-error-as-outcome:%s" % cls,
+                    "computation #%d ended with asynq's own %s" % (len(roots) - 1, cls))
         elif n == "AuxFlushActive":
             want = {"Some": [list(sync_stack[-1][0])]} if sync_stack else "None"
             if a[2] != want and not case.get("params", {}).get("reentrant"):
